@@ -23,16 +23,25 @@ RULE = (
     'over yield points at every lock/condition operation and statement boundary of the '
     'queue methods. Non-trivial = at least 2 threads and at least one pre-emption at a '
     'statement boundary inside an anchored function; distinct = (configuration, schedule '
-    'choice trace) hash')
+    'choice trace) hash. Timing variants of every configuration (vlib/qwork.timing_variants): '
+    'a timeout is configured and (a) the consumers sleep before their first 1-3 operations or '
+    'only turn up once the producers returned, on a bounded buffer, with and without '
+    'ignore_error, or (b) the sources sleep before 1-2 elements and the consumers (any mode, '
+    'one forced to get_batch(k, block=True)) retry after a TimeoutError; oracle: no produced '
+    'element vanishes without a reported error')
 ASSUMPTIONS = [
     'with several producers max_enqueuer is preset to the producer count (as piter_multiplex does); discovery is only valid for one producer',
     'Condition.notify wakes waiters in FIFO order and there are no spurious wake-ups (CPython behaviour)',
     'a timed wait (timeout configured) can only expire when no thread is enabled (global starvation); an unexpected TimeoutError in a fault-free run is reported as a violation',
     'pre-emption happens between Python statements of the anchored functions and at synchronisation operations, not inside a single statement',
     'the raw queue.Queue/SimpleQueue/asyncio.Queue objects are trusted and used through their non-blocking methods only',
+    'timing variants: a sleeping thread is a timed wait that never becomes enabled; which of several pending timed waits (sleeps, queue timeouts) expires first under global starvation is a seeded choice, i.e. a sleep may be shorter or longer than the timeout; TimeoutErrors are expected there and are not verdicts',
+    'timing variants: a consumer retries a dequeue that raised TimeoutError as long as queue.exception is None (at most 40 times, then it ends with the TimeoutError); a run in which any producer raised, the queue recorded an exception or a consumer ended with an exception counts as reported and is not checked for completeness',
+    'timing variants: put / put_nowait / get_nowait of the queue instance are wrapped by pass-through recorders (used only to attribute a loss to its call site)',
 ]
 REQUIRED = ['async_cases', 'schedules', 'line_preemptions', 'lock_ops', 'cond_waits', 'recv_events',
-            'shim_threading_installed']
+            'shim_threading_installed', 'timing_cases', 'timing_timeouts_fired', 'timing_naps',
+            'timing_consumer_retries', 'timing_put_timeouts', 'timing_complete_streams']
 CHUNK_TIMEOUT_S = {'quick': 300, 'thorough': 3000}
 
 MODES = ['get', 'get', 'batch_nb:1', 'batch_nb:2', 'batch_nb:3',
@@ -62,6 +71,7 @@ def plan(tier, seed):
   n_cfg, n_sched = (160, 120) if tier == 'quick' else (1600, 600)
   chunks = 32 if tier == 'quick' else 64
   return [{'chunk': i, 'chunks': chunks, 'n_cfg': n_cfg, 'n_sched': n_sched,
+           'n_tsched': 4 if tier == 'quick' else 16,
            'rseed': seed} for i in range(chunks)] + [
       {'mode': 'async', 'chunk': j, 'rseed': seed,
        'n': 120 if tier == 'quick' else 4000} for j in range(2 if tier == 'quick' else 8)]
@@ -93,6 +103,8 @@ def run_one(ctx, case):
   if sched.status in ('watchdog', 'step_bound'):
     ctx.inconclusive_case(sched.status, case)
     return
+  if case.get('scn'):
+    return check_timing(ctx, case, sched, log, info)
   problems = qwork.analyse(case, sched, log)
   for kind, detail in problems:
     ctx.violation(kind, case, {'detail': detail, 'log_tail': log[-25:]},
@@ -100,6 +112,29 @@ def run_one(ctx, case):
   if len(ctx.samples) < 3:
     ctx.sample({'case': case, 'events': log[:40], 'switches': sched.switches,
                 'line_preemptions': sched.line_preemptions})
+
+
+def check_timing(ctx, case, sched, log, info, prefix=''):
+  """Oracle + counters of one timing-variant schedule (shared with C05)."""
+  from vlib import qwork
+  ctx.count('timing_cases')
+  ctx.count('timing_' + case['scn'])
+  ctx.count('timing_timeouts_fired', sched.timeouts_fired)
+  ctx.count('timing_naps', sum(1 for e in log if e[0] == 'nap'))
+  ctx.count('timing_consumer_retries', sum(1 for e in log if e[0] == 'retry'))
+  ctx.count('timing_put_timeouts', sum(1 for e in log if e[0] == 'put_timeout'))
+  problems = qwork.analyse_timing(case, sched, log, info)
+  if info.get('reports'):
+    ctx.count('timing_runs_with_reported_error')
+  elif not problems:
+    ctx.count('timing_complete_streams')
+  for kind, detail in problems:
+    mech = qwork.classify_timing(case, kind, detail)
+    if mech is None:
+      mech = f'{prefix}{case["scn"]}:queue-{kind}{qwork.deadlock_sites(kind, detail)}'
+    ctx.violation(kind, case, {'detail': detail, 'log_tail': log[-30:]}, mechanism=mech)
+  if len(ctx.samples) < 5 and ctx.counters.get('timing_cases', 0) <= 2:
+    ctx.sample({'case': case, 'events': log[:40]})
 
 
 def run_async_chunk(ctx, spec):
@@ -153,6 +188,18 @@ def run_chunk(ctx, spec):
       case['p_line'] = [0.05, 0.15, 0.4, 0.0][r]
       case['p_sync'] = [0.3, 0.5, 0.7, 0.0][r]
       run_one(ctx, case)
+  from vlib import qwork
+  trng = random.Random(spec['rseed'] * 7919 + spec['chunk'] + 4004)
+  for cfg in mine:
+    for variant in qwork.timing_variants(cfg, trng):
+      for j in range(spec.get('n_tsched', 8)):
+        case = dict(variant)
+        case['sched_seed'] = trng.randrange(1 << 30)
+        r = j % 4
+        case['strategy'] = 'pct' if r == 3 else 'random'
+        case['p_line'] = [0.05, 0.15, 0.4, 0.0][r]
+        case['p_sync'] = [0.3, 0.5, 0.7, 0.0][r]
+        run_one(ctx, case)
 
 
 def run_case(ctx, case):
